@@ -49,6 +49,13 @@ Theorem C09_hilbert_monotone : forall (splits idx ids : list N),
 Proof. exact hilbert_monotone. Qed.
 Print Assumptions C09_hilbert_monotone.
 
+(* ... so each part is one interval of the curve *)
+Theorem C09_hilbert_parts_are_intervals : forall (l : list (N * N)), mono_pairs l ->
+  forall a b c, In a l -> In b l -> In c l ->
+    (fst a <= fst c)%N -> (fst c <= fst b)%N -> snd a = snd b -> snd c = snd a.
+Proof. exact mono_pairs_intervals. Qed.
+Print Assumptions C09_hilbert_parts_are_intervals.
+
 Theorem C09_hilbert_assign_total : forall splits idx, exists ids, assign_parts splits idx = Ok ids.
 Proof. exact assign_parts_total. Qed.
 Print Assumptions C09_hilbert_assign_total.
